@@ -140,6 +140,50 @@ def wait_done_or_blocked(actor, grace=0.3, timeout=30.0):
             CV.wait(0.005)
 
 
+def drive(actors, res=None, timeout=60.0, use_time=True, max_virtual=4000.0):
+    """Wait until every actor finished.  When everything is quiescent but an
+    actor is unfinished: in virtual time fire the next timer (a fallback timer
+    becoming visible); with no timer left it is a hang.  Returns
+    'ok' | 'deadlock' | 'hang' | 'timeout'."""
+    end = _real_monotonic() + timeout
+    start_v = instr.vnow()
+    while True:
+        with CV:
+            while True:
+                if all(a.finished for a in actors):
+                    return "ok"
+                if LM.deadlocks:
+                    CV.wait(0.2)
+                    return "deadlock"
+                if instr.MODE[0] == "vt" and instr.quiescent():
+                    break
+                rem = end - _real_monotonic()
+                if rem <= 0:
+                    return "timeout"
+                CV.wait(min(rem, 0.02))
+            # quiescent with unfinished actors
+            if any(a.paused for a in TR.arms.values()):
+                return "hang"  # caller forgot to release a pause
+            timers = instr.pending_timers()
+        if use_time and timers and timers[0] - start_v <= max_virtual:
+            instr.advance(until=timers[0])
+            if res is not None:
+                res.count("drive.timer_needed")
+            continue
+        return "hang"
+
+
+def hang_report(actors):
+    frames = sys._current_frames()
+    out = {}
+    for t in list(instr.TRACKED) + list(actors):
+        if t.is_alive() and t.ident in frames:
+            out[getattr(t, "vf_role", t.name)] = [
+                "%s:%d %s" % (fr.filename.rsplit("/", 1)[-1], fr.lineno, fr.name)
+                for fr in traceback.extract_stack(frames[t.ident]) if "/vf/" not in fr.filename][-6:]
+    return out
+
+
 def call(kind, fn, *args, **kw):
     """Client-boundary recorder: call event before, return event after."""
     tag = kw.pop("_tag", None)
@@ -490,6 +534,23 @@ class Sweep(object):
         self.missed = 0
         self.overlap = 0
 
+    def _drive(self, acts, ctx, info):
+        """Returns True if the execution can be judged by the scenario oracle."""
+        scn, res = self.scn, self.res
+        why = drive(acts, res)
+        info["drive"] = why
+        if why == "timeout":
+            raise Inconclusive("actors did not finish: " + instr.describe_threads())
+        if why == "hang":
+            stuck = [x.role for x in acts if not x.finished]
+            key = scn.hang_key(ctx, stuck) if hasattr(scn, "hang_key") else "+".join(stuck)
+            res.violation("hang/" + key,
+                          "all threads blocked with none timed; unfinished: %s; threads: %s" % (stuck, instr.describe_threads()),
+                          stacks=hang_report(acts), placement=info.get("site"))
+            mark_recycle()
+            return False
+        return why == "ok"
+
     def run_one(self, pos):
         scn, res = self.scn, self.res
         begin(self.mode)
@@ -500,18 +561,24 @@ class Sweep(object):
             arm = TR.arm(role, pause_k=pos, record=(pos is None))
             v = scn.start_victim(ctx)
             iact = None
+            ok = True
             if pos is None:
                 # dry run: victim first, then the intervention, sequentially
                 if v is not None:
-                    if not v.wait() and not LM.deadlocks:
-                        raise Inconclusive("victim did not finish (dry run): " + instr.describe_threads())
+                    ok = self._drive([v], ctx, info)
+                    if ok and v.role != role and instr.MODE[0] == "vt":
+                        instr.settle()
                 else:
                     instr.settle()
                 info["trace"] = list(arm.trace)
-                iact = ctx.actor("I", scn.intervene, ctx).go()
+                if ok:
+                    iact = ctx.actor("I", scn.intervene, ctx).go()
             else:
-                if v is not None:
-                    why = instr.wait_paused_or(arm, lambda: v.finished)
+                if v is not None and v.role == role:
+                    why = instr.wait_paused_or(arm, lambda: v.finished or (instr.MODE[0] == "vt" and instr.quiescent()))
+                elif v is not None:
+                    # the victim is a library thread, v is the actor performing the trigger
+                    why = instr.wait_paused_or(arm, lambda: instr.quiescent())
                 else:
                     why = instr.wait_paused_or(arm, lambda: instr.quiescent(), timeout=20.0)
                 if why == "paused":
@@ -526,28 +593,27 @@ class Sweep(object):
                     TR.release(arm)
                 elif why == "timeout":
                     raise Inconclusive("victim neither paused nor finished: " + instr.describe_threads())
+                elif why == "deadlock":
+                    ok = False
                 else:
                     self.missed += 1
                     TR.disarm(role)
                     iact = ctx.actor("I", scn.intervene, ctx).go()
-            if v is not None and not v.wait():
-                if not LM.deadlocks:
-                    raise Inconclusive("victim did not finish: " + instr.describe_threads())
-            if iact is not None and not iact.wait():
-                if not LM.deadlocks:
-                    raise Inconclusive("intervention did not finish: " + instr.describe_threads())
             TR.disarm(role)
-            if not LM.deadlocks:
+            acts = [x for x in (v, iact) if x is not None]
+            if ok:
+                ok = self._drive(acts, ctx, info)
+            if ok and not LM.deadlocks:
                 scn.finish(ctx)
             info["victim"] = v
             info["iact"] = iact
             res.execs += 1
             check_common(res)
-            if not LM.deadlocks:
+            if ok and not LM.deadlocks:
                 scn.oracle(ctx, res, info)
             return info.get("trace")
         finally:
-            dead = bool(LM.deadlocks)
+            dead = bool(LM.deadlocks) or need_recycle()
             stuck = end(ctx)
             if stuck and not dead:
                 res.inconclusive.append("threads stuck after case: %s" % stuck)
